@@ -51,9 +51,11 @@ def forwardref(
         name = typing.cast(str, ref)
 
     module = _resolve_module_name(name, module)
-    if module is not None:
+    if module is not None and isinstance(ref, str):
         # Every reference in the text may carry the qualifier (`mod.A | mod.B`); it is
         #   one only at the start of a dotted name (not in `Item.Part` for a module `m`).
+        #   (The qualified name of a class never does: `shape.Part` in a module `shape`
+        #   is the class `Part` nested in the class `shape`.)
         name = re.sub(rf"(?<![\w.]){re.escape(module)}\.", "", name)
 
     return ForwardRef(
